@@ -20,7 +20,8 @@ ops (dt = clock units added before the op):
                    (b'') — the last five end reading (handle_readables returns True)
   ['wr', dt]       client fd handled as writable
   ['rw', dt, n]    both in one handle_events call
-  ['q', dt, k, L]  (plain) k chunks of L bytes are queued for the client (scripted upstream/plugin output)
+  ['q', dt, k, L]  (plain) k chunks of L bytes are queued for the client (scripted upstream/plugin output; L may be 0)
+  ['qs', dt, [..]] (plain) chunks of the given lengths are queued, e.g. [57, 0] = header block + empty body
   ['ur', dt, L]    (tunnel) upstream peer sends L bytes; upstream fd handled as readable
   ['uw', dt]       (tunnel) upstream fd handled as writable
   ['nop', dt]      handle_events([], [])
@@ -44,6 +45,7 @@ logging.disable(logging.ERROR)
 PROPERTY = 'C20'
 LEAN_TARGETS = ['PxProofs.C20']
 THEOREMS = [
+    'Px.Idle.C20_empty_piece_popped', 'Px.Idle.C20_counter_is_pieces', 'Px.Idle.C20_empty_piece_drains',
     'Px.Idle.C20_safety', 'Px.Idle.C20_active_never_reaped', 'Px.Idle.C20_only_loop_closes',
     'Px.Idle.C20_due_iff', 'Px.Idle.C20_cadence', 'Px.Idle.C20_period_impl', 'Px.Idle.C20_cadence_impl',
     'Px.Idle.C20_cadence_margin_impl', 'Px.Idle.C20_period_threaded',
@@ -59,7 +61,8 @@ RULE = ('trace: timed op list (client send+readable with scripted recv outcome, 
 ASSUMPTIONS = [
     'iteration duration bound D and continued running of the loop are hypotheses of the bound theorems (environment)',
     'virtual clock: time.time as seen by proxy.http.handler is non-decreasing; unit 1/1024 s makes float arithmetic exact',
-    'queued chunks are non-empty and the client socket accepts what is flushed (no BlockingIOError on send) in the harness runs',
+    'the client socket accepts what is flushed (no BlockingIOError / short send) in the harness runs; the flush model and '
+    'C20_empty_piece_drains cover short sends, only BlockingIOError on every attempt is excluded by hypothesis',
     'recv outcomes SSLWantReadError / BlockingIOError / OSError / ConnectionResetError / TimeoutError / EOF are scripted on a '
     'wrapped client socket; a real TLS handshake is not run',
     'non-default cadence constants in correspondence cases stay >= 1 ms away from exact tick*(select+wait) == cleanup '
@@ -68,7 +71,8 @@ ASSUMPTIONS = [
     'TLS-wrapped client connections and plugins that replace handler.work are not exercised',
 ]
 EXHAUSTIVE = {'thorough': True}
-EXPLANATION = ('thorough tier includes every op sequence of length <= 4 over {rd, rx-want, rx-eof, wr, q, it} x dt in {0,1,3} units '
+EXPLANATION = ('thorough tier includes every op sequence of length <= 4 over {rd, rx-want, wr, q[3 bytes], q[empty piece], it} '
+               '(and of length <= 3 with rx-eof added) x dt in {0,1,3} units '
                'with timeout 2 units in both modes (threadless with cleanup period 0/1); the quantifier itself '
                '(all timeouts, unbounded traces) is covered by the theorems')
 UNIT = 1024
@@ -102,6 +106,28 @@ class _FakeTime:
 
     def __getattr__(self, k):
         return getattr(_time, k)
+
+
+class _Stuck(Exception):
+    """the threaded shutdown flush spins without making progress"""
+
+
+class _GuardedSelector:
+    """The handler's own selector with a bound on the number of select() calls, so that a flush loop
+    that never empties the buffer ends the case (as a reported outcome) instead of hanging it."""
+
+    def __init__(self, real, limit=2000):
+        self._real = real
+        self._left = limit
+
+    def select(self, timeout=None):
+        self._left -= 1
+        if self._left < 0:
+            raise _Stuck()
+        return self._real.select(timeout=0 if timeout else timeout)
+
+    def __getattr__(self, k):
+        return getattr(self._real, k)
 
 
 TERMINAL = ('block', 'oserr', 'reset', 'timeout', 'eof')
@@ -245,12 +271,12 @@ class _Run:
         finally:
             self.probing = False
 
-    def record(self, step, t, delivered, read, teardown=False):
+    def record(self, step, t, delivered, read, teardown=False, executed=False):
         alive = self.alive()
         if not alive and not self.eof:
             delivered += self.drain_client()
         rec = {'op': step[0], 't': t, 'alive': alive, 'delivered': delivered, 'read': read,
-               'runs': self.runs, 'eof': self.eof, 'teardown': teardown}
+               'runs': self.runs, 'eof': self.eof, 'teardown': teardown, 'exec': executed}
         if alive:
             rec['la'] = self.h.last_activity * UNIT
             rec['nbuf'] = self.h.work._num_buffer
@@ -291,6 +317,9 @@ class _Run:
         elif op == 'q':
             for _ in range(step[2]):
                 h.work.queue(memoryview(b'z' * step[3]))
+        elif op == 'qs':
+            for n in step[2]:
+                h.work.queue(memoryview(b'z' * n))
         elif op == 'ur':
             if self.up_peer is not None:
                 self.up_peer.sendall(b'u' * step[2])
@@ -331,11 +360,11 @@ class _Run:
                 self.torn_at = t
                 if self.mode == 'threadless':
                     self.ex._cleanup(self.wid)
-                    self.record(step, t, self.drain_client(), read, True)
+                    self.record(step, t, self.drain_client(), read, True, True)
                     continue
                 self.pending_torn = (step, t, read)
                 return True
-            self.record(step, t, self.drain_client(), read, False)
+            self.record(step, t, self.drain_client(), read, False, True)
         return True
 
     # -- the run ----------------------------------------------------------
@@ -409,11 +438,16 @@ class _Run:
                     return r
                 h.is_inactive = ii
                 h._run_once = self.fake_run_once
-                h.run()                                           # real loop, real shutdown
+                h.selector = _GuardedSelector(h.selector)
+                self.stuck = False
+                try:
+                    h.run()                                       # real loop, real shutdown
+                except _Stuck:
+                    self.stuck = True
                 self.finished = True
             if self.pending_torn is not None:
                 step, t, read = self.pending_torn
-                self.record(step, t, self.drain_client(), read, True)
+                self.record(step, t, self.drain_client(), read, True, True)
             if self.pending_it is not None:
                 step, t = self.pending_it
                 self.pending_it = None
@@ -424,6 +458,9 @@ class _Run:
                 self.pos += 1
                 self.clock.u += step[1]
                 self.record(step, self.clock.u, 0, 0)
+            if self.mode == 'threaded' and self.stuck:
+                for r in self.recs:
+                    r['stuck'] = True
         finally:
             H.time = orig_time
             S.new_socket_connection = orig_nsc
@@ -441,6 +478,8 @@ def _fmt_num(x):
 
 
 def _obs(rec, was_reaped):
+    if rec.get('stuck'):
+        return 'shutdown-flush-never-ends!'
     if rec['alive']:
         return '%s:%d:%d:%d:%s%s' % (_fmt_num(rec['la']), rec['nbuf'], rec['runs'], rec['inactive'],
                                      'l' if rec['lingering'] else 'o', '!eof' if rec['eof'] else '')
@@ -493,62 +532,53 @@ def impl(case):
 
 # ---------------------------------------------------------------------------
 # model side
+ALL = 1000000        # what the client socket's send() accepts in the harness runs: everything offered
+
+
+def _lens(ls):
+    return '+'.join(str(x) for x in ls) if ls else '-'
+
+
 def _events(case):
-    """Model events implied by the script (the harness's expectation of what each op is)."""
+    """Model events implied by the script (the harness's expectation of what each op is); the queued piece
+    lengths travel to the model, which runs TcpConnection.flush on them itself."""
     toks = []
     t = case['start']
-    chunks = []          # lengths of queued chunks (shadow of TcpConnection.buffer)
     connected = False
-    lingering = False    # reads ended while output was pending: the real handler skips all further reads
-    M = case['maxsend']
+    lingering = False    # reads ended: the real handler skips all further reads (client and upstream)
     if case['mode'] == 'threaded':
         toks.append('~i,%d' % t)                 # run() tests is_inactive() before the first _run_once
 
-    def flush():
-        if not chunks:
-            return 0
-        if chunks[0] <= M:
-            chunks.pop(0)
-            return 1
-        chunks[0] -= M
-        return 0
+    def rd():
+        nonlocal connected
+        if case['sess'] == 'tunnel' and not connected and not lingering:
+            connected = True
+            return [ESTABLISHED_LEN]
+        return []
     for st in case['steps']:
         op = st[0]
         t += st[1]
         if op == 'rd':
-            k = 0
-            if case['sess'] == 'tunnel' and not connected and not lingering:
-                connected = True
-                chunks.append(ESTABLISHED_LEN)
-                k = 1
-            toks.append('r,%d,%d' % (t, k))
+            toks.append('r,%d,%s' % (t, _lens(rd())))
         elif op == 'rx':
             if st[2] == 'want':
-                toks.append('r,%d,0' % t)
+                toks.append('r,%d,-' % t)
             else:
                 toks.append('e,%d' % t)
                 lingering = True
         elif op == 'rw':
-            toks.append('~w,%d,%d' % (t, flush()))
-            k = 0
-            if case['sess'] == 'tunnel' and not connected and not lingering:
-                connected = True
-                chunks.append(ESTABLISHED_LEN)
-                k = 1
-            toks.append('r,%d,%d' % (t, k))
+            toks.append('~w,%d,%d' % (t, ALL))
+            toks.append('r,%d,%s' % (t, _lens(rd())))
         elif op == 'wr':
-            toks.append('w,%d,%d' % (t, flush()))
+            toks.append('w,%d,%d' % (t, ALL))
         elif op == 'q':
-            chunks.extend([st[3]] * st[2])
-            toks.append('u,%d,%d' % (t, st[2]))
+            toks.append('u,%d,%s' % (t, _lens([st[3]] * st[2])))
+        elif op == 'qs':
+            toks.append('u,%d,%s' % (t, _lens(st[2])))
         elif op == 'ur':
-            if connected and not lingering:
-                chunks.append(st[2])
-                toks.append('u,%d,1' % t)
-            else:
-                toks.append('u,%d,0' % t)
+            toks.append('u,%d,%s' % (t, _lens([st[2]] if connected and not lingering else [])))
         elif op in ('uw', 'nop'):
-            toks.append('u,%d,0' % t)
+            toks.append('u,%d,-' % t)
         elif op == 'it':
             toks.append('i,%d' % t)
         else:
@@ -566,9 +596,9 @@ def model_lines(case):
     th = 1 if case['mode'] == 'threaded' else 0
     ev = ' '.join(_events(case))
     if case.get('cad') and not th:
-        return ['idle trace %d %d %d %d %d %d %s' % (th, case['timeout_u'], case['cad'][0], case['cad'][1],
-                                                    case['cad'][2], case['start'], ev)]
-    return ['idle itrace %d %d %d %s' % (th, case['timeout_u'], case['start'], ev)]
+        return ['idle trace %d %d %d %d %d %d %d %s' % (th, case['timeout_u'], case['cad'][0], case['cad'][1],
+                                                       case['cad'][2], case['maxsend'], case['start'], ev)]
+    return ['idle itrace %d %d %d %d %s' % (th, case['timeout_u'], case['maxsend'], case['start'], ev)]
 
 
 # ---------------------------------------------------------------------------
@@ -590,8 +620,7 @@ def oracle(case):
     recs = _Run(case).go()
     T = case['timeout_u']
     last_io = case['start']
-    queued = 0
-    delivered = 0
+    fifo = []            # what the proxy still owes the client, piece by piece (an empty piece owes one turn)
     N = 0 if case['mode'] == 'threaded' else _period(case.get('cad'))
     overdue = 0
     connected = False
@@ -602,21 +631,35 @@ def oracle(case):
         was_alive, prev_alive = prev_alive, r['alive']
         if 'torn_at' in r:
             return None          # closed because reading ended (EOF, reset, ...): not the reaper's doing
-        # bytes the script made the proxy owe the client
+        # a writable turn with output pending is a client-side write (attempt): the head piece gets its turn,
+        # an empty head piece is thereby done; delivered bytes come off the front
+        if op in ('wr', 'rw') and r['exec'] and fifo:
+            last_io = t
+            if fifo[0] == 0:
+                fifo.pop(0)
+        d = r['delivered']
+        while d > 0 and fifo:
+            take = min(d, fifo[0])
+            fifo[0] -= take
+            d -= take
+            if fifo[0] == 0:
+                fifo.pop(0)
+        # pieces the script made the proxy owe the client
         if op in ('rd', 'rw') and case['sess'] == 'tunnel' and not connected and r['read'] and not reads_ended:
             connected = True
-            queued += ESTABLISHED_LEN
-        elif op == 'q' and (r['alive']):
-            queued += st[2] * st[3]
-        elif op == 'ur' and connected and r['alive'] and not reads_ended:
-            queued += st[2]
+            fifo.append(ESTABLISHED_LEN)
+        elif op == 'q' and r['exec']:
+            fifo += [st[3]] * st[2]
+        elif op == 'qs' and r['exec']:
+            fifo += list(st[2])
+        elif op == 'ur' and connected and r['exec'] and not reads_ended:
+            fifo.append(st[2])
         if (r['read'] and not reads_ended) or r['delivered']:
             # a client-side read (attempt on the readable descriptor, whatever its outcome) or write at t
             last_io = t
         if op == 'rx' and r['read'] and st[2] in TERMINAL:
             reads_ended = True
-        delivered += r['delivered']
-        pending = queued - delivered > 0
+        pending = bool(fifo)
         idle_past = (not pending) and (t - last_io > T)
         if r['alive']:
             if r['eof']:
@@ -681,6 +724,18 @@ def corpus():
             cs.append(_trace(mode, 'plain', T, [['it', 1], ['rx', T, o], ['it', 1], ['it', T + 1]], cad=cad))
             cs.append(_trace(mode, 'plain', T, [['q', 1, 2, 5], ['rx', 3 * T, o], ['it', 1], ['rd', 1, 4], ['wr', T],
                                                 ['it', T + 1], ['wr', 1], ['it', 1]], cad=cad))
+    # output cut into pieces some of which are EMPTY (header block + empty body, ...): alone, first, between, last;
+    # every piece is gone after its writable turn and the idle connection is reaped on time
+    for mode in ('threadless', 'threaded'):
+        cad = [25, 1, 0] if mode == 'threadless' else None
+        for pieces in ([0], [0, 7], [7, 0, 7], [7, 0], [0, 0], [57, 0]):
+            for d in (0, 1):
+                cs.append(_trace(mode, 'plain', T, [['rd', 3, 9], ['qs', 2, pieces]] + [['wr', 1]] * len(pieces) +
+                                 [['it', 1], ['it', T - 1 + d], ['it', 1], ['it', 1]], cad=cad))
+        cs.append(_trace(mode, 'plain', T, [['qs', 2, [0, 9]], ['wr', 1], ['wr', 1], ['wr', T + 5], ['it', 1],
+                                            ['it', T], ['it', 1]], maxsend=4, cad=cad))
+    cs.append(_trace('threadless', 'plain', 1024, [['rd', 3, 5], ['qs', 1, [12, 0]], ['wr', 1], ['wr', 1]] +
+                     [['it', 30]] * 90, via='arg'))
     # default cadence, long idle: reaped by the 40th iteration at the latest
     cs.append(_trace('threadless', 'plain', 1024, [['rd', 3, 5]] + [['it', 30]] * 90, via='arg'))
     cs.append(_trace('threadless', 'plain', 0, [['it', 0]] * 45, via='arg'))
@@ -717,7 +772,7 @@ def _gen_trace(rng, mode, big):
         else:
             dt = rng.randrange(0, absT + 3)
         ops = ['it'] * 5 + ['rd', 'wr', 'wr', 'nop', 'rw', 'rx', 'rx']
-        ops += ['ur', 'ur', 'uw'] if sess == 'tunnel' else ['q', 'q']
+        ops += ['ur', 'ur', 'uw'] if sess == 'tunnel' else ['q', 'q', 'qs']
         op = rng.choice(ops)
         now += dt
         if op == 'it':
@@ -750,9 +805,13 @@ def _gen_trace(rng, mode, big):
                 else:
                     chunks[0] -= maxsend
         elif op == 'q':
-            k, L = rng.randrange(1, 3), rng.choice([1, 3, 5, 20])
+            k, L = rng.randrange(1, 3), rng.choice([0, 1, 3, 5, 20])
             steps.append(['q', dt, k, L])
             chunks += [L] * k
+        elif op == 'qs':
+            ls = [rng.choice([0, 0, 2, 9]) for _ in range(rng.randrange(1, 4))]
+            steps.append(['qs', dt, ls])
+            chunks += ls
         elif op == 'ur':
             L = rng.choice([1, 5, 20])
             steps.append(['ur', dt, L])
@@ -765,14 +824,19 @@ def _gen_trace(rng, mode, big):
 
 def _small_scope():
     """every op sequence of length <= 4 over a small alphabet, timeout 2 units, dt in 0..3"""
-    alpha = []
+    alpha, extra = [], []
     for dt in (0, 1, 3):
-        alpha += [['rd', dt, 2], ['rx', dt, 'want'], ['rx', dt, 'eof'], ['wr', dt], ['q', dt, 1, 3], ['it', dt]]
+        alpha += [['rd', dt, 2], ['rx', dt, 'want'], ['wr', dt], ['q', dt, 1, 3], ['q', dt, 1, 0], ['it', dt]]
+        extra += [['rx', dt, 'eof']]
     seqs = [[]]
     out = []
     for _ in range(4):
         seqs = [s + [a] for s in seqs for a in alpha]
         out += seqs
+    seqs = [[]]
+    for _ in range(3):                 # the read-ending outcome: every sequence of length <= 3 that uses it
+        seqs = [s + [a] for s in seqs for a in alpha + extra]
+        out += [s for s in seqs if any(x[0] == 'rx' and x[2] == 'eof' for x in s)]
     for s in out:
         if not any(x[0] == 'it' for x in s):
             continue
@@ -782,7 +846,7 @@ def _small_scope():
 
 def generate(rng, tier):
     big = tier == 'thorough'
-    for _ in range(1500 if not big else 30000):
+    for _ in range(1500 if not big else 22000):
         yield _gen_trace(rng, 'threadless', big)
         yield _gen_trace(rng, 'threaded', big)
     # default cadence: long idle stretches (first reaper run in iteration 40, then every 39)
